@@ -150,6 +150,16 @@ def symbol_cache(ctx, rule="C10.symbol-cache"):
             ctx.ob(rule, c.site, False, f"{cn}.__init__ assigns `self.{a}` on an object that sympy caches per (class, name): "
                    "two programs using a parameter of the same name / the same mode index share one object, and "
                    "creating the second re-points or resets the first", role=f"attr:{a}", line=c.node.lineno)
+        # the symbols carry no sympy assumptions: measured values can be complex (heterodyne) and free parameters can be bound
+        # to anything; `real=True` & co. let sympy rewrite expressions (conjugate(q) -> q, im(q) -> 0) before the value exists
+        nw = c.methods.get("__new__")
+        if nw is not None:
+            for call in walk_no_nested(nw.node):
+                if isinstance(call, ast.Call) and isinstance(call.func, ast.Attribute) and call.func.attr == "__new__":
+                    extra = [k.arg or "**" for k in call.keywords]
+                    ctx.ob(rule, nw.site, not extra, "" if not extra else f"{cn}.__new__ creates the symbol with assumptions "
+                           f"{extra}: sympy simplifies parameter expressions under them before the value is known",
+                           role="no-assumptions", line=call.lineno)
     ctx.floor(rule, 3)
 
 
